@@ -88,6 +88,21 @@ def sh(cmd, cwd=None, env=None, timeout=1500):
         p.communicate()
         return 124, "TIMEOUT"
 
+def reap(repo):
+    """A mutant can make a test (or the xcp it spawned) spin for ever; nextest's children outlive the killed process group."""
+    import signal
+    for pid in os.listdir("/proc"):
+        if pid.isdigit():
+            try:
+                exe = os.readlink("/proc/%s/exe" % pid)
+            except OSError:
+                continue
+            if exe.startswith(repo + "/target/"):
+                try:
+                    os.kill(int(pid), signal.SIGKILL)
+                except OSError:
+                    pass
+
 def lane_dir(k):
     return "/var/tmp/xcp-mutgen.%d" % k
 
@@ -137,6 +152,7 @@ def run_mutant(k, mut):
         return res
     finally:
         open(os.path.join(repo, path), "w").write(orig)
+        reap(repo)
         res["wall_s"] = round(time.time() - t0, 1)
 
 def main():
